@@ -1303,6 +1303,52 @@ def mk_iter(ex, st, ty, seq, by_ref, name='iter'):
     return it
 
 
+@rule(r'^core::slice::<impl \[.*\]>::(first|last)$', r'^Vec::(first|last)$', prio=1)
+def s_seq_first(ex, st, call):
+    v = deref(call.args[0])
+    its = seq_items(v)
+    if its is None or v.data.get('extended_unknown'):
+        return NotImplemented
+    if not its:
+        return ex.mk_enum(call.dst_ty, 'None')
+    c = its[0] if call.c0.endswith('first') else its[-1]
+    return ex.mk_enum(call.dst_ty, 'Some', [Ref(c)])
+
+
+@rule(r'^Vec::(remove|pop|swap_remove)$', prio=1)
+def s_seq_remove(ex, st, call):
+    v = deref(call.args[0])
+    its = seq_items(v)
+    if its is None or v.data.get('extended_unknown'):
+        return NotImplemented
+    kind = call.c0.rsplit('::', 1)[-1]
+    if kind == 'pop':
+        if not its:
+            return ex.mk_enum(call.dst_ty, 'None')
+        c = its.pop()
+        st.emit(Ev('VEC_REMOVE', obj=v, args={'index': len(its), 'val': c.val}, site=call.site))
+        return ex.mk_enum(call.dst_ty, 'Some', [c.val])
+    idx = call.args[1]
+    if z3.is_expr(idx):
+        idx = z3.simplify(idx)
+        if not z3.is_bv_value(idx):
+            return NotImplemented
+        idx = idx.as_long()
+    if not isinstance(idx, int):
+        return NotImplemented
+    if idx >= len(its):
+        st.emit(Ev('PANIC', args={'msg': 'removal index out of bounds', 'callee': call.c0}, site=call.site)); st.status = 'panic'
+        return [(st, None)]
+    if kind == 'swap_remove':
+        c = its[idx]; last = its.pop()
+        if idx < len(its):
+            its[idx] = last
+    else:
+        c = its.pop(idx)
+    st.emit(Ev('VEC_REMOVE', obj=v, args={'index': idx, 'val': c.val}, site=call.site))
+    return c.val
+
+
 @rule(r'^Vec::push$', r'^VecDeque::push_back$')
 def s_vec_push(ex, st, call):
     v = deref(call.args[0])
@@ -1460,6 +1506,15 @@ def s_iter_adapt(ex, st, call):
             return n
         if kind in ('by_ref',):
             return call.args[0]
+        if kind in ('take', 'skip') and it.data.get('map') is None:
+            n_ = call.args[1]
+            if z3.is_expr(n_):
+                n_ = z3.simplify(n_)
+                n_ = n_.as_long() if z3.is_bv_value(n_) else None
+            if isinstance(n_, int):
+                n = mk_iter(ex, st, call.dst_ty, mk_seq('', live[:n_] if kind == 'take' else live[n_:]), by_ref)
+                n.data['copied'] = it.data.get('copied')
+                return n
     # unknown: a new opaque iterator that remembers its source
     o = Obj(call.dst_ty, f'{kind}(..)', 'opaque')
     o.data['adapter'] = (kind, it, call.args[1:])
